@@ -122,5 +122,11 @@ Fixpoint viol_from (i : N) (cs : list acase) : list (N * N) :=
 Definition asm_violations (cs : list acase) : list (N * N) := viol_from 0 cs.
 
 (* C14 judges the menu encoder used directly (asm/menu.go is one of its anchors): only AMenu cases *)
+(* ... and the assembler proper wherever no finding class of C16 applies to the source: there the
+   bytecode must decode to the instructions as written (C14: encoder and decoder agree) *)
 Definition asm_violations_c14 (cs : list acase) : list (N * N) :=
-  map (fun i => (i, 0)) (bad_indices (fun c => match c with AMenu adds o => menu_ok adds o | _ => true end) cs).
+  map (fun i => (i, 0))
+      (bad_indices (fun c => match c with
+                             | AMenu adds o => menu_ok adds o
+                             | _ => c16_ok c || negb (c16_class c =? 0)
+                             end) cs).
